@@ -56,35 +56,65 @@ def check_clusters(ctx, F):
               "self.kmeans.labels_ and before the per-cluster loop: labels_ must describe exactly the stored rows",
               construct="kmeans fit in _fit_operation")
     if loop is not None:
-        c = ast.unparse(loop.target)
-        it = ast.unparse(loop.iter)
+        # two spellings of "for every cluster c with its policy": for c in range(self.n_clusters): self.lp_list[c]
+        # / for c, lp in enumerate(self.lp_list): lp.   The row selector is read as an index (a boolean mask and the
+        # positions np.where gives for it select the same rows).
+        from .semantic import Env, as_index, sem_text
+        env = Env(fo.node.body)
+        it = " ".join(ast.unparse(loop.iter).split())
+        c = pol = None
+        if it == "range(self.n_clusters)" and isinstance(loop.target, ast.Name):
+            c = loop.target.id
+            pol = "self.lp_list[%s]" % c
+        elif it == "enumerate(self.lp_list)" and isinstance(loop.target, ast.Tuple) and len(loop.target.elts) == 2 \
+                and all(isinstance(e, ast.Name) for e in loop.target.elts):
+            c, pol = loop.target.elts[0].id, loop.target.elts[1].id
+
+        def stmt_of(n):
+            while n is not None and id(n) not in env.env_at:
+                n = parent(n)
+            return n
+
+        def X(n):
+            return env.at(stmt_of(n), n)
         fits = [x for x in ast.walk(loop) if isinstance(x, ast.Call) and isinstance(x.func, ast.Attribute)
-                and x.func.attr == "fit" and T(fo.node, x.func.value).startswith("self.lp_list[")]
+                and x.func.attr == "fit" and c is not None and sem_text(X(x.func.value)) == pol]
         ok2 = False
-        detail = ""
-        if len(fits) == 1:
-            which = T(fo.node, fits[0].func.value)
-            args = [T(fo.node, a) for a in fits[0].args]
-            want_sel = "np.where(self.kmeans.labels_ == %s)" % c
-            ok2 = which == "self.lp_list[%s]" % c and it == "range(self.n_clusters)" and args == [
-                "self.decisions[%s]" % want_sel, "self.rewards[%s]" % want_sel, "self.contexts[%s]" % want_sel]
-            detail = "trains %s on %s" % (which, args)
+        detail = "loop over %s" % it
+        if len(fits) == 1 and len(fits[0].args) == 3 and not fits[0].keywords:
+            from ..model import canon_eq
+            want_sel = canon_eq("self.kmeans.labels_", c)
+            sels = []
+            bases = []
+            for a in fits[0].args:
+                e = X(a)
+                if isinstance(e, ast.Subscript):
+                    bases.append(sem_text(e.value))
+                    sels.append(as_index(e.slice))
+                else:
+                    bases.append(sem_text(e))
+                    sels.append(None)
+            ok2 = bases == ["self.decisions", "self.rewards", "self.contexts"] and all(x == want_sel for x in sels)
+            detail = "trains %s on %s selected by %s" % (pol, bases, sels)
         ctx.check(ok2, "R12.1", "policy c is trained on decisions, rewards and contexts of the rows labelled c", loop,
                   fo, detail, construct="per-cluster training loop")
-    # reader
-    rl, idx, row = _row_loop_of(pc)
+    # reader (expressions in loop-spelling independent form: c15.RowForm)
+    from .c15 import RowForm
+    rf = RowForm(pc)
+    rl = rf.loop
     okr = rl is not None
     okc = rl is not None
     detail = ""
     if okr:
-        want = "deepcopy(self.lp_list)[self.kmeans.predict(%s)[%s]]" % (pc.params[1], idx)
-        calls = [x for x in ast.walk(rl) if isinstance(x, ast.Call) and isinstance(x.func, ast.Attribute)
-                 and x.func.attr in ("predict", "predict_expectations")]
+        want = "deepcopy(self.lp_list)[self.kmeans.predict(%s)[IDX]]" % pc.params[1]
+        # every use of a policy inside the row loop: <policy>.predict / .predict_expectations (called or taken as a
+        # bound method) and the re-seeding store <policy>.rng = ...
+        uses = [x for x in ast.walk(rl) if isinstance(x, ast.Attribute) and isinstance(x.ctx, ast.Load) and
+                x.attr in ("predict", "predict_expectations") and ast.unparse(x.value) != "self.kmeans"]
         seeds = [x for x in ast.walk(rl) if isinstance(x, ast.Assign) and isinstance(x.targets[0], ast.Attribute)
                  and x.targets[0].attr == "rng"]
-        recvs = [T(pc.node, x.func.value) for x in calls] + [T(pc.node, x.targets[0].value) for x in seeds]
-        okr = bool(calls) and all(r.replace("deepcopy(self.lp_list)", "LP") == want.replace(
-            "deepcopy(self.lp_list)", "LP") or r == want for r in recvs)
+        recvs = [rf.text(x.value) for x in uses] + [rf.text(x.targets[0].value, at=x) for x in seeds]
+        okr = bool(uses) and all(r == want for r in recvs)
         okc = bool(recvs) and all(r.startswith("deepcopy(self.lp_list)[") for r in recvs)
         detail = "receivers %s" % sorted(set(recvs))
     ctx.check(bool(okr), "R12.1", "a query row is answered by the policy of the cluster kmeans.predict assigns it to",
@@ -137,7 +167,7 @@ def check_tree(ctx):
         it = T(fa.node, lp.iter)
         st = [s for s in ast.walk(lp) if isinstance(s, ast.Assign) and isinstance(s.targets[0], ast.Subscript)]
         if st:
-            tgt = ast.unparse(st[-1].targets[0])
+            tgt = T(fa.node, st[-1].targets[0])
             val = T(fa.node, st[-1].value)
             leaves = "self.arm_to_tree[%s].apply(%s)" % (arm, a_con)
             ok_file = tgt == "self.arm_to_leaf_to_rewards[%s][%s]" % (arm, lv) and \
@@ -154,32 +184,43 @@ def check_tree(ctx):
     ctx.check(ok_tfit, "R12.2", "an arm's tree is fitted on the arm's rows, and only while its leaf store is empty",
               tfit[0] if tfit else fa.node, fa, construct="tree fit in _fit_arm")
     # reader
-    rl, idx, row = _row_loop_of(pc)
+    from .c15 import RowForm
+    from .semantic import emptiness
+    rf = RowForm(pc)
+    rl = rf.loop
     okr = False
     okc = False
     detail = ""
+    COPIES = ("deepcopy(%s)", "copy.deepcopy(%s)")
+    SHALLOW = COPIES + ("dict(%s)", "%s.copy()", "copy.copy(%s)")
     if rl is not None:
         inner = next((s for s in rl.body if isinstance(s, ast.For)), None)
-        if inner is not None:
-            a = ast.unparse(inner.target)
+        if inner is not None and isinstance(inner.target, ast.Name):
+            a = inner.target.id
             fits = [x for x in ast.walk(inner) if isinstance(x, ast.Call) and isinstance(x.func, ast.Attribute)
                     and x.func.attr == "fit"]
             exp = [s for s in ast.walk(inner) if isinstance(s, ast.Assign) and
                    isinstance(s.targets[0], ast.Subscript) and ast.unparse(s.targets[0].slice) == a]
-            guard = parent(parent(fits[0])) if len(fits) == 1 else None
-            leaf = "deepcopy(self.arm_to_leaf_to_rewards)[%s][deepcopy(self.arm_to_tree)[%s].apply([%s])[0]]" % (
-                a, a, row)
-            okr = len(fits) == 1 and len(exp) == 1 and isinstance(guard, ast.If) and \
-                T(pc.node, guard.test) == "deepcopy(self.arm_to_leaf_to_rewards)[%s]" % a and \
-                T(pc.node, inner.iter) in ("deepcopy(self.arms)", "self.arms")
+            guard = parent(fits[0]) if len(fits) == 1 else None
+            while guard is not None and not isinstance(guard, ast.If) and guard is not inner:
+                guard = parent(guard)
+            store = "deepcopy(self.arm_to_leaf_to_rewards)[%s]" % a
+            leaf = "%s[deepcopy(self.arm_to_tree)[%s].apply([ROW])[0]]" % (store, a)
+            em = emptiness(rf.expr(guard.test, at=guard)) if isinstance(guard, ast.If) else None
+            in_body = isinstance(guard, ast.If) and len(fits) == 1 and any(
+                fits[0] is x for st in guard.body for x in ast.walk(st))
+            okr = len(fits) == 1 and len(exp) == 1 and em is not None and " ".join(em[0].split()) == store and \
+                em[1] == (not in_body) and rf.text(inner.iter, at=inner) in (
+                    "deepcopy(self.arms)", "self.arms", "list(self.arms)", "self.arms.copy()", "tuple(self.arms)")
             if okr:
-                args = [T(pc.node, x) for x in fits[0].args]
-                okr = args == ["np.asarray([%s] * len(%s))" % (a, leaf), leaf] and \
-                    T(pc.node, fits[0].func.value) == "self._create_leaf_lp(%s)" % a and \
-                    T(pc.node, exp[0].value) == "self._create_leaf_lp(%s).predict_expectations()[%s]" % (a, a) and \
-                    parent(exp[0]) is guard
+                args = [rf.text(x) for x in fits[0].args]
+                okr = args == ["np.asarray([%s] * SIZE(%s))" % (a, leaf), leaf] and \
+                    rf.text(fits[0].func.value) == "self._create_leaf_lp(%s)" % a and \
+                    rf.text(exp[0].value, at=exp[0]) == "self._create_leaf_lp(%s).predict_expectations()[%s]" % (a, a) \
+                    and any(exp[0] is x for st in (guard.body if in_body else guard.orelse) for x in ast.walk(st))
                 detail = "leaf policy fitted with %s" % args
-                okc = T(pc.node, exp[0].targets[0]) == "deepcopy(self.arm_to_expectation)[%s]" % a
+                tgt = rf.text(exp[0].targets[0].value, at=exp[0])
+                okc = tgt in [c % "self.arm_to_expectation" for c in SHALLOW]
     ctx.check(okr, "R12.2", "the query reads [arm][leaf] of the arm's own tree applied to the row and trains the leaf "
               "policy on exactly that array", rl if rl is not None else pc.node, pc, detail,
               construct="leaf lookup in _TreeBandit._predict_contexts")
